@@ -148,8 +148,19 @@ CLAIMED["C12"] = (
     "finds every repeat and preserves value is declined.",
     _NOTE, "DESIGN.md section 5, C12")
 
+CLAIMED["C15"] = (
+    "attribute-existence rule over the dispatch relation of "
+    "CoefficientCollector; refusal (raise) structure of its product/quotient/"
+    "power handlers; covering-or-raising for all node classes; dominance of the "
+    "solver's refusals over its division",
+    "Partial: only refusal and guard structure is decided (non-affine input "
+    "raises, composite leaves do not crash, the solver refuses before it "
+    "divides). Correctness of the coefficients and of Gaussian elimination is "
+    "numeric and declined.",
+    _NOTE, "DESIGN.md section 5, C15")
+
 for _p in ["C02", "C03", "C10",
-           "C15", "C16", "C19"]:
+           "C16", "C19"]:
     NOT_APPLICABLE[_p] = ("check under construction in this revision (see "
                           "DESIGN.md for the planned static rule)")
 NOT_APPLICABLE["C18"] = (
